@@ -343,3 +343,11 @@ fire("C11", B, "            if n_args > 3:\n", "            if n_args > 4:\n", "
 fire("C11", B, "        if index < 0:\n            raise NotImplementedError(f\"Negative index {index} into a table\")\n", "", "the original defect: a negative operand counted from the end (R11.X)")
 fire("C11", L, "    if USE_LINETABLE and from_line_mapping(mapping) != code.co_linetable:  # type: ignore\n", "    if False:\n", "the original defect: hand-altered 3.10 tables silently rewritten (R11.H2)")
 silent(["C11", "C09", "C02"], B, "        if index < 0:\n", "        if not index >= 0:\n", "same refusal, other spelling")
+# ---- tenth round
+fire("C16", CLI, '        code = compile(source, "<string>", "exec")  # type: ignore', '        code = compile(source, "<string>", "exec", optimize=0)  # type: ignore', "-c compiled with a fixed optimisation level (R16.F)")
+silent(["C16"], CLI, '        code = compile(source, "<string>", "exec")  # type: ignore', '        code = compile(source, "<string>", "exec", dont_inherit=True)  # type: ignore', "dont_inherit changes nothing for this module")
+fire("C16", I, "    _nested: bool = field(default=False)", "    _nested: bool = field(default=False, repr=False)", "a field hidden from the printed form (R16.9)")
+fire("C04", C, "            constants[0] if constants and isinstance(constants[0], str) else None", "            constants[0] if constants and isinstance(constants[0], str) and sys.flags.optimize < 2 else None", "the docstring depends on -OO of the running interpreter (R04.S)")
+fire("C15", N, "                _additional_args=(),\n", "                _additional_args=tuple({a for a in x._additional_args if isinstance(a, Constant)}),\n", "a tuple in set order (R15.O)")
+fire("C10", L, "            and (item.line_offset > 0) == (prev_item.line_offset > 0)\n", "            and abs(prev_item.line_offset + item.line_offset) > abs(prev_item.line_offset)\n", "a step of the other sign at one address merged into a full step (R10.F raw tables)")
+fire("C03", B, "        if docstring_is_none and arg_is_string and arg._index_override == 0:\n", "        if docstring_is_none and first_const and arg_is_string and arg._index_override == 0:\n", "a string pinned at 0 behind another constant is accepted (R03.E)")
